@@ -1173,7 +1173,7 @@ class BitString(Type):
     def rstrip_zeros(self, data, number_of_bits):
         data, number_of_bits = rstrip_bit_string_zeros(bytearray(data))
 
-        if self.minimum is not None:
+        if self.minimum not in [None, 'MIN']:
             if number_of_bits < self.minimum:
                 number_of_bits = self.minimum
                 number_of_bytes = ((number_of_bits + 7) // 8)
